@@ -71,6 +71,40 @@ Theorem C13_model_passes_checker : forall db lay vbfile domain local,
 Proof. exact model_passes_checker. Qed.
 Print Assumptions C13_model_passes_checker.
 
+(** "... and is rejected with 550 5.1.1 otherwise": addrparse() on RCPT TO:<local@domain> (address accepted by
+    addrsyntax() as a full address, domain in rcpthosts, record with a directory in users/cdb for the lower-cased
+    domain) accepts only if the mailbox of the lower-cased local part exists, writes a reply only if it does not
+    exist and then one that starts with "550 5.1.1 ", and returns an error only if a lookup failed hard. *)
+Theorem C13_reply : forall db fs vb domain local,
+  let l := map to_lower local in
+  let d := map to_lower domain in
+  domain_found db d ->
+  match fst (addrparse_rcpt db fs vb local domain) with
+  | RAccept => mailbox fs vb l
+  | RNoUser text => ~ mailbox fs vb l /\ exists t, text = REPLY_550 ++ t
+  | RError e => 0 < e /\ io_error fs vb l
+  end.
+Proof. exact rcpt_reply_sound. Qed.
+Print Assumptions C13_reply.
+
+Theorem C13_reply_exact : forall db fs vb domain local,
+  let l := map to_lower local in
+  let d := map to_lower domain in
+  domain_found db d -> ~ io_error fs vb l ->
+  let r := fst (addrparse_rcpt db fs vb local domain) in
+  (r = RAccept <-> mailbox fs vb l) /\
+  (~ mailbox fs vb l <-> exists t, r = RNoUser (REPLY_550 ++ t)).
+Proof. exact rcpt_reply_exact. Qed.
+Print Assumptions C13_reply_exact.
+
+(** the checker used on the observations of the real addrparse() accepts the model's observation *)
+Theorem C13_model_passes_rcpt_checker : forall db lay vbfile domain local,
+  let ro := addrparse_rcpt db (fs_of_layout lay) (vpopbounce_of vbfile) local domain in
+  spec_ok_C13_rcpt db lay vbfile domain local (fst (rcpt_obs (fst ro))) (snd (rcpt_obs (fst ro)))
+    (conf_of (snd ro)) (probes (snd ro)) = true.
+Proof. exact model_passes_rcpt_checker. Qed.
+Print Assumptions C13_model_passes_rcpt_checker.
+
 (** the hypotheses are met by a non-trivial state: a directory with .qmail-sales-default and a bounce
     catch-all; "sales-eu.north" is accepted with 4, "nobody" gets 0, ".." gets 0 without any lookup *)
 Example C13_nonvacuous :
